@@ -123,7 +123,10 @@ def state_preserving_call(c):
         return True
     if isinstance(c.func, ast.Attribute) and c.func.attr in kernel_names() and dotted(c.func.value) not in (None, 'self'):
         return all(is_pure(a) or state_preserving_call(a) if isinstance(a, ast.Call) else is_pure(a) for a in list(c.args) + [k.value for k in c.keywords])
-    if dotted(c.func) in ('msg', 'log', 'warn', 'error', 'gc.collect', 'np.zeros', 'np.array', 'np.ascontiguousarray', 'np.asarray', 'np.deg2rad', 'deg2rad', 'csr_matrix', 'coo_matrix',
+    d0 = dotted(c.func) or ''
+    if d0.startswith('np.') or d0.startswith('numpy.') or d0.startswith('math.') or (isinstance(c.func, ast.Attribute) and c.func.attr in PURE_METHODS and dotted(c.func.value) not in (None, 'self')):
+        return True
+    if dotted(c.func) in ('msg', 'log', 'warn', 'error', 'csc_matrix', 'get_model', 'gc.collect', 'np.zeros', 'np.array', 'np.ascontiguousarray', 'np.asarray', 'np.deg2rad', 'deg2rad', 'csr_matrix', 'coo_matrix',
                           'finalize_symmetric_matrix', 'make_symmetric', 'make_skew_symmetric', 'check_c', 'linspace', 'np.linspace', 'np.meshgrid', 'np.atleast_1d', 'np.zeros_like'):
         return True
     return False
@@ -382,6 +385,10 @@ class Normalizer:
         for _ in range(6):
             before = dump(fn)
             fn.body = self.block(fn.body)
+            try:
+                self.split_webs(fn)
+            except Exception:
+                pass
             self.forward_substitute(fn)
             self.drop_rederivations(fn)
             for _m in range(30):
@@ -391,6 +398,9 @@ class Normalizer:
                 if not self.moves_back(fn):
                     break
             self.merge_adjacent(fn)
+            for _m in range(10):
+                if not self.cse(fn):
+                    break
             self.order_independent(fn)
             for _m in range(10):
                 if not self.split_literal_sequences(fn):
@@ -533,6 +543,11 @@ class Normalizer:
             if isinstance(st, ast.If):
                 st.test = canon_test(st.test)
                 body, orelse = st.body, st.orelse
+                # a lone `return <simple>` after an if is copied into its branches (then `x = E; return x` can become `return E`)
+                if len(rest) == 1 and isinstance(rest[0], ast.Return) and not always_exits(body) and not always_exits(orelse) and cost(rest[0]) <= 16:
+                    body = list(body) + [copy.deepcopy(rest[0])]
+                    orelse = list(orelse) + [copy.deepcopy(rest[0])]
+                    rest = []
                 # guard lowering: the code after an `if` whose one branch always leaves belongs to the other branch
                 if rest and always_exits(body) and not always_exits(orelse):
                     orelse = list(orelse) + rest
@@ -815,7 +830,8 @@ class Normalizer:
                         continue
                     names, attrs = reads(st.value)
                     names.discard(v)
-                    state = bool(attrs) or any(isinstance(n, ast.Subscript) for n in ast.walk(st.value)) or any(isinstance(n, ast.Call) for n in ast.walk(st.value))
+                    has_sub = any(isinstance(n, ast.Subscript) for n in ast.walk(st.value))
+                    state = bool(attrs) or has_sub or any(isinstance(n, ast.Call) for n in ast.walk(st.value))
                     killers = set()
                     for k, n in cfg.nodes.items():
                         if n is None or k == D:
@@ -834,12 +850,16 @@ class Normalizer:
                                 killers.add(k)
                             if isinstance(x, (ast.Attribute, ast.Subscript)) and state:
                                 d = dotted(x) if isinstance(x, ast.Attribute) else dotted(x.value)
+                                if isinstance(x, ast.Subscript) and isinstance(x.value, ast.Name) and self.fresh_local(x.value.id, asg) and x.value.id not in names:
+                                    continue        # an array created in this function: not what the expression reads
                                 if d is None or not attrs or any(a == d or a.startswith(d + '.') or d.startswith(a + '.') for a in attrs) or isinstance(x, ast.Subscript):
                                     killers.add(k)
                         if state and hdr is not None:
                             for c in ast.walk(hdr if not isinstance(n, ast.For) else n.iter):
                                 if isinstance(c, ast.Call) and not state_preserving_call(c):
-                                    killers.add(k)
+                                    wr = self.call_writes(c)
+                                    if '*' in wr or has_sub or not attrs or any(a.split('.')[0] != 'self' or (len(a.split('.')) > 1 and a.split('.')[1] in wr) for a in attrs):
+                                        killers.add(k)
                     ok = True
                     after_D = cfg.reachable(D)
                     for u in uses:
@@ -873,6 +893,31 @@ class Normalizer:
                     break
             if not done:
                 break
+
+    def fresh_local(self, v, asg):
+        """every binding of the local name v is a newly created array / matrix"""
+        lst = asg.get(v, [])
+        if not lst or v in self.params:
+            return False
+        for st, kind in lst:
+            if not (kind == 'assign' and isinstance(st, ast.Assign) and isinstance(st.value, ast.Call)):
+                return False
+            d = dotted(st.value.func) or ''
+            if not (d in ('np.concatenate', 'np.zeros', 'np.empty', 'np.array', 'np.zeros_like', 'np.ones', 'np.arange', 'coo_matrix', 'csr_matrix', 'np.where', 'np.unique', 'np.sort')
+                    or (isinstance(st.value.func, ast.Attribute) and st.value.func.attr in ('copy', 'toarray'))):
+                return False
+        return True
+
+    def call_writes(self, c):
+        """self attributes a call may write: known for methods of the same class (effect summaries), '*' otherwise"""
+        d = dotted(c.func)
+        eff = None
+        for k, v in self.sigdb.items():
+            if k[0] == 'effects':
+                eff = v
+        if d and d.startswith('self.') and d.count('.') == 1 and eff is not None and d[5:] in eff:
+            return eff[d[5:]]
+        return {'*'}
 
     def moves(self, fn):
         """b = a  where the name a is never used again (read or written) after this statement and the statement is not inside
@@ -919,6 +964,158 @@ class Normalizer:
                     n.id = a
                 blk.pop(i)
                 return True
+        return False
+
+    def split_webs(self, fn):
+        """a local name that is re-used for unrelated values (x = f(); ...; x = g()) is split into one name per web of definitions
+        and uses (two definitions belong together when some use can see both)"""
+        from .pyflow import CFG
+        cfg = CFG(fn)
+        asg = self.assignments(fn)
+        local = [v for v, lst in asg.items() if len(lst) > 1 and all(k in ('assign', 'other', 'param') for _, k in lst)
+                 and not any(isinstance(st, (ast.Global, ast.Nonlocal, ast.Import, ast.ImportFrom, ast.ExceptHandler, ast.With)) for st, _ in lst)]
+        if not local:
+            return False
+        if any(isinstance(n, (ast.Lambda, ast.FunctionDef)) and n is not fn for n in ast.walk(fn)):
+            closure_names = {x.id for n in ast.walk(fn) if isinstance(n, (ast.Lambda, ast.FunctionDef)) and n is not fn for x in ast.walk(n) if isinstance(x, ast.Name)}
+        else:
+            closure_names = set()
+        # occurrences per CFG node
+        occ = {}      # node id -> list of Name nodes (in evaluation order: loads before stores for plain assignments)
+        for i, n in cfg.nodes.items():
+            if n is None:
+                continue
+            if isinstance(n, ast.For):
+                parts = [n.iter, n.target]
+            else:
+                h = cfg.header_expr(i)
+                parts = [h] if h is not None else []
+            names = []
+            for part in parts:
+                names += free_names(part)
+            occ[i] = names
+        changed = False
+        for v in local:
+            if v in closure_names:
+                continue
+            defs = [i for i, names in occ.items() if any(x.id == v and isinstance(x.ctx, (ast.Store, ast.Del)) for x in names) or
+                    (isinstance(cfg.nodes[i], ast.AugAssign) and isinstance(cfg.nodes[i].target, ast.Name) and cfg.nodes[i].target.id == v)]
+            uses = [i for i, names in occ.items() if any(x.id == v and isinstance(x.ctx, ast.Load) for x in names) or
+                    (isinstance(cfg.nodes[i], ast.AugAssign) and isinstance(cfg.nodes[i].target, ast.Name) and cfg.nodes[i].target.id == v)]
+            if len(defs) + (1 if v in self.params else 0) < 2:
+                continue
+            parent = {d: d for d in defs}
+
+            def find(x):
+                while parent[x] != x:
+                    parent[x] = parent[parent[x]]
+                    x = parent[x]
+                return x
+            reach_of_use = {}
+            undefined_use = False
+            parent['ENTRY'] = 'ENTRY'
+            for u in uses:
+                # reaching definitions of v at the entry of u: backwards over predecessors, stopping at definitions
+                seen, todo, rd = set(), list(cfg.pred[u]), set()
+                while todo:
+                    x = todo.pop()
+                    if x in seen:
+                        continue
+                    seen.add(x)
+                    if x in parent:
+                        rd.add(x)
+                        continue
+                    if x == cfg.ENTRY:
+                        rd.add('ENTRY')
+                    todo += list(cfg.pred[x])
+                # a node that both uses and defines v (x = x + 1, x += 1, for x in f(x)): its use sees the earlier definitions
+                reach_of_use[u] = rd
+                rl = list(rd)
+                for a in rl[1:]:
+                    parent[find(a)] = find(rl[0])
+                if isinstance(cfg.nodes[u], ast.AugAssign) and u in parent and rl:
+                    parent[find(u)] = find(rl[0])
+            if undefined_use:
+                continue
+            webs = {}
+            for d in defs:
+                webs.setdefault(find(d), []).append(d)
+            if v in self.params:
+                webs.setdefault(find('ENTRY'), []).append(-1)
+            if len(webs) < 2:
+                continue
+            # the web that can also be reached without any definition keeps the original name
+            order = sorted(webs, key=lambda r: (find('ENTRY') != r, min(webs[r])))
+            names_for = {r: (v if k == 0 else '%s__w%d' % (v, k)) for k, r in enumerate(order)}
+            for d in defs:
+                nm = names_for[find(d)]
+                for x in occ[d]:
+                    if x.id == v and isinstance(x.ctx, (ast.Store, ast.Del)):
+                        x.id = nm
+                if isinstance(cfg.nodes[d], ast.AugAssign) and cfg.nodes[d].target.id == v:
+                    cfg.nodes[d].target.id = nm
+            for u in uses:
+                rd = reach_of_use[u]
+                if not rd:
+                    continue
+                real = [x for x in rd if x != 'ENTRY']
+                if not real:
+                    continue
+                nm = names_for[find(real[0])]
+                for x in occ[u]:
+                    if x.id == v and isinstance(x.ctx, ast.Load):
+                        x.id = nm
+            changed = True
+        return changed
+
+    def cse(self, fn):
+        """a = E; b = E  (same block, E makes only state-preserving calls, nothing between the two writes what E reads, neither name is
+        re-bound or mutated anywhere): b is a second name for an equal value that is only read - use a"""
+        asg = self.assignments(fn)
+
+        def mutated(v):
+            for n in ast.walk(fn):
+                if isinstance(n, (ast.Subscript, ast.Attribute)) and isinstance(n.ctx, (ast.Store, ast.Del)) and isinstance(n.value, ast.Name) and n.value.id == v:
+                    return True
+                if isinstance(n, ast.AugAssign) and any(isinstance(x, ast.Name) and x.id == v for x in ast.walk(n.target)):
+                    return True
+                if isinstance(n, ast.Call) and isinstance(n.func, ast.Attribute) and isinstance(n.func.value, ast.Name) and n.func.value.id == v and n.func.attr not in PURE_METHODS:
+                    return True
+                if isinstance(n, ast.Call) and not (is_pure(n) or state_preserving_call(n)) and any(isinstance(a, ast.Name) and a.id == v for a in list(n.args) + [k.value for k in n.keywords]):
+                    return True
+            return False
+        for blk in self.blocks(fn):
+            for i, a in enumerate(blk):
+                if not (isinstance(a, ast.Assign) and len(a.targets) == 1 and isinstance(a.targets[0], ast.Name) and len(asg.get(a.targets[0].id, [])) == 1):
+                    continue
+                if isinstance(a.value, (ast.Constant, ast.Name)) or not all(is_pure(c) or state_preserving_call(c) for c in ast.walk(a.value) if isinstance(c, ast.Call)):
+                    continue
+                if isinstance(a.value, (ast.List, ast.Dict, ast.Set, ast.ListComp, ast.DictComp, ast.SetComp)):
+                    continue
+                da = dump(a.value)
+                nm, at = reads(a.value)
+                for j in range(i + 1, len(blk)):
+                    b = blk[j]
+                    if isinstance(b, ast.Assign) and len(b.targets) == 1 and isinstance(b.targets[0], ast.Name) and dump(b.value) == da \
+                            and len(asg.get(b.targets[0].id, [])) == 1 and b.targets[0].id not in self.params:
+                        va, vb = a.targets[0].id, b.targets[0].id
+                        if va != vb and not mutated(va) and not mutated(vb):
+                            for n in free_names(fn):
+                                if n.id == vb:
+                                    n.id = va
+                            blk.pop(j)
+                            return True
+                    # anything between that could change what E reads ends the search
+                    stop = False
+                    for x in ast.walk(b):
+                        if isinstance(x, ast.Call) and not (is_pure(x) or state_preserving_call(x)):
+                            stop = True
+                        if isinstance(getattr(x, 'ctx', None), (ast.Store, ast.Del)):
+                            d = dotted(x) if isinstance(x, (ast.Name, ast.Attribute)) else dotted(x.value) if isinstance(x, ast.Subscript) else None
+                            if d is None or d in nm or any(t == d or t.startswith(d + '.') or d.startswith(t + '.') for t in at):
+                                stop = True
+                    if stop or isinstance(b, (ast.For, ast.While, ast.Try, ast.With)):
+                        break
         return False
 
     def moves_back(self, fn):
@@ -970,7 +1167,10 @@ class Normalizer:
                         w.add(dotted(x.value) or '?')
                         r.add(dotted(x.value) or '?')
             nm, at = reads(st.value)
-            r |= nm | at
+            bases = {x.value.id for x in ast.walk(st.value) if isinstance(x, ast.Attribute) and isinstance(x.value, ast.Name)}
+            bare = {x.id for x in free_names(st.value) if isinstance(x.ctx, ast.Load)} - bases
+            # a name that only occurs as the base of attribute reads is covered by those attribute chains; 'self' is never re-bound
+            r |= (nm - bases) | bare | at | {b for b in bases if b != 'self'}
             if isinstance(st, ast.AugAssign):
                 r |= w
             return w, r
@@ -1266,6 +1466,19 @@ class ExprCanon(ast.NodeTransformer):
         self.generic_visit(n)
         return n
 
+    def visit_Subscript(self, n):
+        self.generic_visit(n)
+        if isinstance(n.ctx, ast.Load):
+            if isinstance(n.slice, ast.IfExp) and is_pure(n):
+                e = n.slice
+                return self.visit_IfExp(ast.IfExp(test=e.test, body=ast.Subscript(value=copy.deepcopy(n.value), slice=e.body, ctx=ast.Load()),
+                                                  orelse=ast.Subscript(value=copy.deepcopy(n.value), slice=e.orelse, ctx=ast.Load())))
+            if isinstance(n.value, ast.IfExp) and is_pure(n):
+                e = n.value
+                return self.visit_IfExp(ast.IfExp(test=e.test, body=ast.Subscript(value=e.body, slice=copy.deepcopy(n.slice), ctx=ast.Load()),
+                                                  orelse=ast.Subscript(value=e.orelse, slice=copy.deepcopy(n.slice), ctx=ast.Load())))
+        return n
+
     def visit_Call(self, n):
         self.generic_visit(n)
         d = dotted(n.func)
@@ -1379,9 +1592,21 @@ def rename_comprehension_vars(fn):
     rec(fn, 0)
 
 
+def rename_lambda_params(fn):
+    for lam in [n for n in ast.walk(fn) if isinstance(n, ast.Lambda)]:
+        ps = [a.arg for a in lam.args.posonlyargs + lam.args.args]
+        ren = {p_: '_l%d' % k for k, p_ in enumerate(ps)}
+        for a in lam.args.posonlyargs + lam.args.args:
+            a.arg = ren[a.arg]
+        for x in ast.walk(lam.body):
+            if isinstance(x, ast.Name) and x.id in ren:
+                x.id = ren[x.id]
+
+
 def alpha(fn, params):
     """rename the local names (everything stored in the function that is not a parameter) in order of first occurrence"""
     rename_comprehension_vars(fn)
+    rename_lambda_params(fn)
     stored = []
     for n in own_walk(fn):
         if isinstance(n, ast.Name) and isinstance(n.ctx, (ast.Store, ast.Del)) and n.id not in params and n.id not in stored:
@@ -1438,6 +1663,49 @@ def signature_of(fn):
     return dump(ast.arguments(posonlyargs=a.posonlyargs, args=a.args, vararg=a.vararg, kwonlyargs=a.kwonlyargs, kw_defaults=a.kw_defaults, kwarg=a.kwarg, defaults=a.defaults))
 
 
+def class_effects(methods):
+    """method name -> set of self attributes the method may write ('*' = unknown), closed over calls to other methods of the class"""
+    direct, calls = {}, {}
+    for name, f in methods.items():
+        w, cs = set(), set()
+        for n in ast.walk(f):
+            if isinstance(n, (ast.Attribute, ast.Subscript)) and isinstance(getattr(n, 'ctx', None), (ast.Store, ast.Del)):
+                d = dotted(n) if isinstance(n, ast.Attribute) else dotted(n.value)
+                if d and d.startswith('self.'):
+                    w.add(d.split('.')[1])
+                elif d is None or d.split('.')[0] == 'self':
+                    w.add('*')
+            if isinstance(n, ast.AugAssign):
+                d = dotted(n.target) if isinstance(n.target, ast.Attribute) else dotted(n.target.value) if isinstance(n.target, ast.Subscript) else None
+                if d and d.startswith('self.'):
+                    w.add(d.split('.')[1])
+            if isinstance(n, ast.Call):
+                d = dotted(n.func)
+                if d and d.startswith('self.') and d.count('.') == 1:
+                    cs.add(d[5:])
+                elif d and d.startswith('self.'):
+                    # a method of an attribute object (self.analysis.static(), self.k0.copy()): may change that attribute
+                    if not (isinstance(n.func, ast.Attribute) and n.func.attr in PURE_METHODS):
+                        w.add(d.split('.')[1])
+                elif d in ('setattr',) and n.args and dotted(n.args[0]) == 'self':
+                    w.add('*')
+                elif not state_preserving_call(n) and any(dotted(a) == 'self' for a in list(n.args) + [k.value for k in n.keywords]):
+                    w.add('*')
+        direct[name], calls[name] = w, cs
+    eff = {k: set(v) for k, v in direct.items()}
+    for _ in range(len(methods) + 1):
+        changed = False
+        for name in methods:
+            for c in calls[name]:
+                add = eff.get(c, {'*'}) - eff[name]
+                if add:
+                    eff[name] |= add
+                    changed = True
+        if not changed:
+            break
+    return eff
+
+
 def build_sigdb(mod_funcs, class_methods, cls, extra=None):
     """parameter-name lists for keyword normal form: methods of the same class (self.x), module functions, and,
     for calls through other objects (p.calc_k0(...)), names that are unambiguous over all analysed classes"""
@@ -1459,6 +1727,8 @@ def build_sigdb(mod_funcs, class_methods, cls, extra=None):
     # statements of the class's _rebuild (normal form text): a re-execution of one of them after self._rebuild() is redundant
     if cls and '_rebuild' in class_methods.get(cls, {}):
         db[('rebuild', cls)] = class_methods[cls]['_rebuild']
+    if cls:
+        db[('effects', cls)] = class_effects(class_methods.get(cls, {}))
     for k, v in (extra or {}).items():
         db.setdefault(k, v)
     return db
